@@ -8,38 +8,79 @@ C06 model: the claim reconciler's binding protocol
 call by call, as a `Prog` over an abstract API server with resourceVersion
 optimistic concurrency.
 
-Abstract store: one claim (rv, spec.resourceRef.name, finalizer, deletionTimestamp,
+Abstract store: one claim (rv, its own identity apiVersion/kind/namespace/name, the FULL
+spec.resourceRef = name + group + version + kind, finalizer, deletionTimestamp,
 compositeDeletePolicy) with the list of every version ever stored as ghost state (a
-cached read may return any of them), XRs by name (rv, spec.claimRef, claim labels,
-finalizer, deletionTimestamp, status), and a ghost event trace.
+cached read may return any of them), XRs by name (rv, the FULL spec.claimRef = name +
+namespace + group + version + kind, whether it carries keys reference.Claim drops (uid),
+claim labels, finalizer, deletionTimestamp, status), and a ghost event trace.
+
+References are modelled component-wise because the code's decisions depend on them
+component-wise: "does the claim reference an XR" looks ONLY at `spec.resourceRef.name`
+(reconciler.go `Get(ctx, types.NamespacedName{Name: ref.Name}, xr)`, both syncers
+`SetName(ref.Name)`) whatever apiVersion/kind the reference carries, while the client-side
+syncer rewrites the claim when the stored reference differs from `xr.GetReference()` in ANY
+component (`!cmp.Equal(existing, proposed)`) and the server-side one always rewrites it;
+"is this XR bound to this claim" is `cmp.Equal(cm.GetReference(), xr.GetClaimReference())`
+on reference.Claim{APIVersion, Kind, Name, Namespace}: ALL of name, namespace, group,
+version and kind must agree (a uid key is dropped by GetClaimReference and never compared).
 
 Not modelled (chosen by an oracle that the theorems quantify over, and that the
 driver takes from the real run): the managed-fields state that decides whether
 `Upgrade` issues its JSON patch and whether the server accepts it; the random
 name suffixes (name oracle `cands`); which version the lagging cache serves
 (`pick`). Field-level sync of spec/status/labels is C07's subject. The pause
-annotation and connection-secret propagation are outside (never enabled).
+annotation and connection-secret propagation are outside (never enabled). The claim's
+own apiVersion (`St.me`, `Claim.id`) is fixed: only the XR version of the controller
+(`Cfg.xrt`) varies between reconciles.
 -/
 namespace Xp.C06
 
 abbrev Name := String
 
-/-- identity named by an XR's spec.claimRef: this claim, or any other claim -/
-inductive Cid where
-  | self | other
+/-- group/version/kind; `apiVersion` = group/version -/
+structure GVK where
+  group : String
+  version : String
+  kind : String
   deriving DecidableEq, Repr
+
+/-- reference.Composite: what a claim's spec.resourceRef holds -/
+structure XRef where
+  name : Name
+  group : String
+  version : String
+  kind : String
+  deriving DecidableEq, Repr
+
+/-- reference.Claim: what an XR's spec.claimRef holds, and what `cm.GetReference()` returns -/
+structure CRef where
+  name : String
+  ns : String
+  group : String
+  version : String
+  kind : String
+  deriving DecidableEq, Repr
+
+/-- `xr.GetReference()` of an XR of type `t` named `n` -/
+def mkXRef (t : GVK) (n : Name) : XRef := ⟨n, t.group, t.version, t.kind⟩
 
 structure Claim where
   rv : Nat
-  ref : Option Name      -- spec.resourceRef.name
+  id : CRef              -- cm.GetReference(): apiVersion, kind, namespace, name of the object itself
+  ref : Option XRef      -- spec.resourceRef
   fin : Bool             -- carries finalizer.apiextensions.crossplane.io
   deleting : Bool        -- deletionTimestamp set
   fg : Bool              -- spec.compositeDeletePolicy = Foreground
   deriving DecidableEq, Repr
 
+/-- `spec.resourceRef.name`: the only component of the reference the reconciler and the syncers read -/
+def Claim.refName (c : Claim) : Option Name := c.ref.map (·.name)
+
 structure XR where
   rv : Nat
-  cref : Option Cid      -- spec.claimRef
+  cref : Option CRef     -- spec.claimRef as GetClaimReference() parses it
+  crefUid : Bool         -- spec.claimRef carries a key reference.Claim has no field for (uid): never compared
   labeled : Bool         -- carries this claim's claim-name/claim-namespace labels
   fin : Bool             -- has finalizers
   deleting : Bool
@@ -54,11 +95,14 @@ inductive Ev where
   /-- the claim controller created XR `n` (Create or apply-create) -/
   | create (n : Name)
   /-- a write or delete of the claim controller took effect on the existing XR `n`;
-  `foreign` = its stored claimRef named another claim at that moment -/
-  | xrWrite (n : Name) (foreign : Bool)
+  `was` = its stored claimRef at that moment -/
+  | xrWrite (n : Name) (was : Option CRef)
   deriving DecidableEq, Repr
 
 structure St where
+  /-- the identity of the claim this model instance is about (the reconcile request's
+  namespace/name + the controller's claim GroupVersionKind); never changes -/
+  me : CRef
   claim : Option Claim
   /-- ghost: every version of the claim ever stored, newest first -/
   hist : List Claim
@@ -87,13 +131,13 @@ inductive Req where
   /-- the managed-fields JSON patch (carries the XR's resourceVersion); `valid` = the server can apply it -/
   | upgradeXR (n : Name) (rv : Nat) (valid : Bool)
   | deleteXR (n : Name) (fg : Bool)
-  /-- client.Create(XR) of the client-side syncer: bound to this claim and labelled; `rvSet` = the
+  /-- client.Create(XR) of the client-side syncer: carries `spec.claimRef = cref` and the claim labels; `rvSet` = the
   object still carries the resourceVersion of an earlier read (the server rejects such a create) -/
-  | createXR (n : Name) (rvSet : Bool)
-  /-- the client-side syncer's merge patch (claimRef := this claim); carries the rv if the XR was read -/
-  | patchXR (n : Name) (rv : Option Nat)
-  /-- the server-side syncer's forced apply: creates the XR or (re)binds it -/
-  | applyXR (n : Name)
+  | createXR (n : Name) (rvSet : Bool) (cref : CRef)
+  /-- the client-side syncer's merge patch (claimRef := cref); carries the rv if the XR was read -/
+  | patchXR (n : Name) (rv : Option Nat) (cref : CRef)
+  /-- the server-side syncer's forced apply (claimRef := cref): creates the XR or (re)binds it -/
+  | applyXR (n : Name) (cref : CRef)
 
 inductive Resp where
   | claim (c : Claim)
@@ -129,15 +173,29 @@ def emit (s : St) (e : Ev) : St := { s with trace := e :: s.trace }
 
 /-- the acknowledgement event of a claim update carrying a resourceRef -/
 def ackOf (c : Claim) : List Ev :=
-  match c.ref with
+  match c.refName with
   | some n => [.ack n]
   | none => []
 
-def XR.foreign (x : XR) : Bool := x.cref == some .other
+/-- the XR a create / apply-create stores: claimRef and claim labels from the request -/
+def newXR (cref : CRef) : XR := ⟨0, some cref, false, true, false, false, false, 0⟩
 
-def newXR : XR := ⟨0, some .self, true, false, false, false, 0⟩
+/-- the merge patch of the client-side syncer (APIPatchingApplicator: the whole desired object sent as a
+JSON merge patch) sets the four fields of spec.claimRef; a key the desired object lacks (uid) is not
+removed by a merge patch -/
+def bindXR (cref : CRef) (x : XR) : XR := { x with cref := some cref, labeled := true }
 
-def bindXR (x : XR) : XR := { x with cref := some .self, labeled := true }
+/-- the forced apply of the server-side syncer sets the four fields it owns; a uid key set by
+somebody else stays -/
+def applyBindXR (cref : CRef) (x : XR) : XR := { x with cref := some cref, labeled := true }
+
+/-- the store after Delete(XR `n`), `x` = its stored state, `x1` = `x` with the foregroundDeletion
+finalizer if requested: an object with finalizers gets a deletionTimestamp (nothing at all changes,
+and no new state enters the name's history, if it already has one), one without disappears -/
+def delState (s : St) (n : Name) (x x1 : XR) : St :=
+  if x1.fin then
+    (if x1.deleting then (if x1 = x then s else setXR s n (some x1)) else (putXR s n { x1 with deleting := true }).1)
+  else setXR s n none
 
 def exec (s : St) : Req → St × Resp
   | .getClaim pick =>
@@ -159,7 +217,7 @@ def exec (s : St) : Req → St × Resp
     | some cur =>
       if c.rv ≠ cur.rv then (s, .err .conflict)
       else
-        let r := pushClaim { s with trace := ackOf c ++ s.trace } { c with deleting := cur.deleting, fg := cur.fg }
+        let r := pushClaim { s with trace := ackOf c ++ s.trace } { c with deleting := cur.deleting, fg := cur.fg, id := cur.id }
         (r.1, .claim r.2)
   | .updClaimStatus rv =>
     match s.claim with
@@ -177,41 +235,37 @@ def exec (s : St) : Req → St × Resp
       else if rv ≠ x.rv then (s, .err .conflict)
       else
         let r := putXR s n x
-        (emit r.1 (.xrWrite n x.foreign), .xr r.2)
+        (emit r.1 (.xrWrite n x.cref), .xr r.2)
   | .deleteXR n fg =>
     match s.xrs n with
     | none => (s, .err .notFound)
     | some x =>
       let x1 := if fg then { x with fin := true } else x
-      let s1 :=
-        if x1.fin then
-          (if x1.deleting then setXR s n (some x1) else (putXR s n { x1 with deleting := true }).1)
-        else setXR s n none
-      (emit s1 (.xrWrite n x.foreign), .ok)
-  | .createXR n rvSet =>
+      (emit (delState s n x x1) (.xrWrite n x.cref), .ok)
+  | .createXR n rvSet cref =>
     match s.xrs n with
     | some _ => (s, .err .exists)
     | none =>
       if rvSet then (s, .err .other)
       else
-        let r := putXR s n newXR
+        let r := putXR s n (newXR cref)
         (emit r.1 (.create n), .xr r.2)
-  | .patchXR n rv =>
+  | .patchXR n rv cref =>
     match s.xrs n with
     | none => (s, .err .notFound)
     | some x =>
       if (match rv with | some v => v != x.rv | none => false) then (s, .err .conflict)
       else
-        let r := putXR s n (bindXR x)
-        (emit r.1 (.xrWrite n x.foreign), .xr r.2)
-  | .applyXR n =>
+        let r := putXR s n (bindXR cref x)
+        (emit r.1 (.xrWrite n x.cref), .xr r.2)
+  | .applyXR n cref =>
     match s.xrs n with
     | none =>
-      let r := putXR s n newXR
+      let r := putXR s n (newXR cref)
       (emit r.1 (.create n), .xr r.2)
     | some x =>
-      let r := putXR s n (bindXR x)
-      (emit r.1 (.xrWrite n x.foreign), .xr r.2)
+      let r := putXR s n (applyBindXR cref x)
+      (emit r.1 (.xrWrite n x.cref), .xr r.2)
 
 /-- what the controller sees when a call is not applied -/
 def errResp : Outcome → Req → Resp
@@ -231,6 +285,10 @@ abbrev P := Prog Req Resp Res
 structure Cfg where
   /-- features.EnableBetaClaimSSA: server-side syncer + managed-fields upgrader -/
   ssa : Bool
+  /-- `r.gvkXR`: the XR GroupVersionKind this incarnation of the controller reconciles. The store
+  holds the XRs of that GroupKind; the version changes when the XRD's referenceable version is
+  switched and the controller restarts. It only ever ends up in references the syncers write. -/
+  xrt : GVK
   /-- which version the cache serves for the claim -/
   pick : Option Nat
   /-- which state the cache serves for each XR read of the reconcile (0 = the Get in Reconcile,
@@ -267,10 +325,10 @@ def finish (cm : Claim) : P := statusThen cm .ok
 /-- ServerSideCompositeSyncer.Sync once the XR's name is known: Update(claim) with the reference,
 then the forced apply of the XR, then (if the XR has a status) Status().Update(claim); then the
 tail of Reconcile -/
-def ssaBind (cm : Claim) (n : Name) : P :=
-  .call (.updClaim { cm with ref := some n }) fun
+def ssaBind (cfg : Cfg) (cm : Claim) (n : Name) : P :=
+  .call (.updClaim { cm with ref := some (mkXRef cfg.xrt n) }) fun
     | .claim cm1 =>
-      .call (.applyXR n) fun
+      .call (.applyXR n cm.id) fun
         | .xr x =>
           if x.status then
             .call (.updClaimStatus cm1.rv) fun
@@ -283,12 +341,14 @@ def ssaBind (cm : Claim) (n : Name) : P :=
     | .err e => failWith cm e
     | _ => .ret .err
 
-/-- ServerSideCompositeSyncer.Sync, then the tail of Reconcile -/
+/-- ServerSideCompositeSyncer.Sync, then the tail of Reconcile: `if ref := cm.GetResourceReference();
+ref != nil { xrPatch.SetName(ref.Name) }` whatever apiVersion/kind the reference carries; then
+`cm.SetResourceReference(xrPatch.GetReference())` and Update(claim), always -/
 def syncSSA (cfg : Cfg) (cm : Claim) : P :=
-  match cm.ref with
-  | some n => ssaBind cm n
+  match cm.refName with
+  | some n => ssaBind cfg cm n
   | none => genName cfg.xpick 10 2 cfg.cands fun
-      | some n => ssaBind cm n
+      | some n => ssaBind cfg cm n
       | none => statusThen cm .requeue
 
 /-- the tail of ClientSideCompositeSyncer.Sync after the XR was applied -/
@@ -305,40 +365,43 @@ def csaPost (cm1 : Claim) : P :=
 /-- `AllowUpdateIf(!cmp.Equal(old, obj))`: the desired XR (built from the XR read at the start of
 the reconcile) equals the current one, i.e. nobody wrote the XR since and it is already bound
 and labelled -/
-def csaNoop (xr : Option XR) (cur : XR) : Bool :=
+def csaNoop (me : CRef) (xr : Option XR) (cur : XR) : Bool :=
   match xr with
-  | some x => x.rv == cur.rv && x.cref == some Cid.self && x.labeled
+  | some x => x.rv == cur.rv && x.cref == some me && !x.crefUid && x.labeled
   | none => false
 
 /-- `s.client.Apply(ctx, xr, AllowUpdateIf(!cmp.Equal))` = APIPatchingApplicator.Apply -/
 def csaApply (cfg : Cfg) (xr : Option XR) (cm1 : Claim) (n : Name) : P :=
   .call (.getXR n (cfg.xpick 1)) fun
     | .err .notFound =>
-      .call (.createXR n xr.isSome) fun
+      .call (.createXR n xr.isSome cm1.id) fun
         | .xr _ => csaPost cm1
         | .err e => failWith cm1 e
         | _ => .ret .err
     | .xr cur =>
-      if csaNoop xr cur then csaPost cm1
+      if csaNoop cm1.id xr cur then csaPost cm1
       else
-        .call (.patchXR n (xr.map XR.rv)) fun
+        .call (.patchXR n (xr.map XR.rv) cm1.id) fun
           | .xr _ => csaPost cm1
           | .err e => failWith cm1 e
           | _ => .ret .err
     | .err e => failWith cm1 e
     | _ => .ret .err
 
-/-- the client-side syncer's Update(claim) with a freshly generated name, then Apply -/
+/-- the client-side syncer's Update(claim) with the proposed reference (a freshly generated name, or
+the recorded name under the controller's current apiVersion/kind), then Apply -/
 def csaBindNew (cfg : Cfg) (xr : Option XR) (cm : Claim) (n : Name) : P :=
-  .call (.updClaim { cm with ref := some n }) fun
+  .call (.updClaim { cm with ref := some (mkXRef cfg.xrt n) }) fun
     | .claim cm1 => csaApply cfg xr cm1 n
     | .err e => failWith cm e
     | _ => .ret .err
 
-/-- ClientSideCompositeSyncer.Sync, then the tail of Reconcile -/
+/-- ClientSideCompositeSyncer.Sync, then the tail of Reconcile: `xr.SetName(ref.Name)` whatever
+apiVersion/kind the reference carries; `if !cmp.Equal(existing, proposed) { SetResourceReference(proposed);
+Update(claim) }` compares the whole reference -/
 def syncCSA (cfg : Cfg) (cm : Claim) (xr : Option XR) : P :=
   match cm.ref with
-  | some n => csaApply cfg xr cm n
+  | some r => if r = mkXRef cfg.xrt r.name then csaApply cfg xr cm r.name else csaBindNew cfg xr cm r.name
   | none => genName cfg.xpick 10 2 cfg.cands fun
       | some n => csaBindNew cfg xr cm n
       | none => statusThen cm .requeue
@@ -392,15 +455,22 @@ def afterCheck (cfg : Cfg) (cm : Claim) (xr : Option (Name × XR)) : P :=
       | _ => .ret .err
   | _, _ => restOf cfg cm xr
 
+/-- `ref != nil && !cmp.Equal(cm.GetReference(), ref)`: the XR carries a claimRef that differs from
+this claim's reference in name, namespace, group, version or kind -/
+def unbound (cm : Claim) (x : XR) : Bool :=
+  match x.cref with
+  | some r => r != cm.id
+  | none => false
+
 /-- the unbound check (errFmtUnbound) -/
 def checked (cfg : Cfg) (cm : Claim) (xr : Option (Name × XR)) : P :=
   match xr with
-  | some (_, x) => if x.cref == some .other then statusThen cm .ok else afterCheck cfg cm xr
+  | some (_, x) => if unbound cm x then statusThen cm .ok else afterCheck cfg cm xr
   | none => afterCheck cfg cm none
 
 /-- after the (possibly stale) claim was read: Get the referenced XR -/
 def withClaim (cfg : Cfg) (cm : Claim) : P :=
-  match cm.ref with
+  match cm.refName with
   | some n =>
     .call (.getXR n (cfg.xpick 0)) fun
       | .xr x => checked cfg cm (some (n, x))
@@ -457,12 +527,14 @@ def skelGenerateName : List String := ["namer.GenerateName", "reader.Get"]
 
 /-- Environment steps: the XR controller (and the garbage collector / a user) rewrite or
 remove XRs but never change a claimRef and never create an XR; the user edits or
-deletes the claim but never changes spec.resourceRef. -/
+deletes the claim and may even rewrite the apiVersion/kind of spec.resourceRef (a manifest
+restored from a backup taken under another served version), but never changes or removes
+spec.resourceRef.name. -/
 inductive Env : St → St → Prop where
   | xrWrite (s : St) (n : Name) (x x' : XR) : s.xrs n = some x → x'.cref = x.cref →
       Env s (putXR s n x').1
   | xrRemove (s : St) (n : Name) : Env s (setXR s n none)
-  | claimWrite (s : St) (c c' : Claim) : s.claim = some c → c'.ref = c.ref →
+  | claimWrite (s : St) (c c' : Claim) : s.claim = some c → c'.refName = c.refName → c'.id = c.id →
       Env s (pushClaim s c').1
   | claimGone (s : St) : Env s { s with claim := none }
 
@@ -471,6 +543,8 @@ inductive EnvAct where
   /-- the XR controller adds its finalizer and writes a status (`status.observed = g`) -/
   | xrTouch (n : Name) (g : Nat)
   | xrRemove (n : Name) | xrDelete (n : Name) | claimDelete | claimTouch
+  /-- somebody rewrites apiVersion/kind of the claim's spec.resourceRef (the name stays) -/
+  | claimRetype (t : GVK)
   deriving Repr
 
 def applyEnv (s : St) : EnvAct → St
@@ -497,6 +571,13 @@ def applyEnv (s : St) : EnvAct → St
   | .claimTouch =>
     match s.claim with
     | some c => (pushClaim s c).1
+    | none => s
+  | .claimRetype t =>
+    match s.claim with
+    | some c =>
+      (match c.ref with
+       | some r => if r = mkXRef t r.name then s else (pushClaim s { c with ref := some (mkXRef t r.name) }).1
+       | none => s)
     | none => s
 
 /-! ### system: one claim-controller thread, the environment, crashes -/
